@@ -103,6 +103,11 @@ def const_table(tree: ast.Module) -> Dict[str, ast.expr]:
             return True
         if isinstance(e, ast.Call) and isinstance(e.func, ast.Name) and e.func.id == "len" and len(e.args) == 1 and isinstance(e.args[0], ast.Constant) and isinstance(e.args[0].value, (str, bytes)):
             return True
+        # the constants of the standard module `string` (string.ascii_lowercase, ...) and the length of one / of another constant
+        if isinstance(e, ast.Attribute) and isinstance(e.value, ast.Name) and e.value.id == "string" and e.attr in ("ascii_lowercase", "ascii_uppercase", "ascii_letters", "digits", "hexdigits", "octdigits", "punctuation", "whitespace", "printable"):
+            return True
+        if isinstance(e, ast.Call) and isinstance(e.func, ast.Name) and e.func.id == "len" and len(e.args) == 1 and not e.keywords and (lit(e.args[0]) or (isinstance(e.args[0], ast.Name) and e.args[0].id.isupper())):
+            return True
         if isinstance(e, ast.Dict):
             # a dispatch table: constant keys, values that are constants, names or tuples of those
             def val(v: ast.AST) -> bool:
@@ -845,6 +850,8 @@ class Normaliser:
             changed |= c
             out, c = self._disjoint_ifs(out)
             changed |= c
+            out, c = self._fold_restore(out)
+            changed |= c
             out, c = self._mirrored_range_loops(out)
             changed |= c
         return out
@@ -1031,6 +1038,33 @@ class Normaliser:
                 if isinstance(last, ast.Assign) and len(last.targets) == 1 and isinstance(last.targets[0], ast.Name) and last.targets[0].id == nx.value.id:
                     st.body = st.body[:-1] + [ast.Return(value=last.value)]
                     return out[: i + 1] + out[i + 2 :], True
+        return out, False
+
+    def _fold_restore(self, out: list) -> Tuple[list, bool]:
+        """A = E; A = f(A)   ->   A = f(E)      A a plain attribute path (self.x), f a plain function name, A its only
+        non-constant argument: nothing runs between the store and the load, and looking the name f up before E is
+        evaluated instead of after cannot be observed."""
+        for i in range(len(out) - 1):
+            a, b = out[i], out[i + 1]
+            if not (isinstance(a, ast.Assign) and isinstance(b, ast.Assign) and len(a.targets) == 1 and len(b.targets) == 1):
+                continue
+            t = a.targets[0]
+            if not (isinstance(t, ast.Attribute) and isinstance(t.value, ast.Name)) or dump(t) != dump(b.targets[0]):
+                continue
+            v = b.value
+            if not (isinstance(v, ast.Call) and isinstance(v.func, ast.Name) and not v.keywords and v.args):
+                continue
+            load = dump(t).replace("Store()", "Load()")
+            hits = [k for k, x in enumerate(v.args) if dump(x) == load]
+            others = [x for k, x in enumerate(v.args) if k not in hits]
+            if len(hits) != 1 or not all(isinstance(x, ast.Constant) for x in others):
+                continue
+            if t.value.id in names_in(a.value) and any(isinstance(n, ast.Attribute) and dump(n) == load for n in ast.walk(a.value)):
+                continue
+            args = list(v.args)
+            args[hits[0]] = a.value
+            new = ast.Assign(targets=[t], value=ast.Call(func=v.func, args=args, keywords=[]))
+            return out[:i] + [new] + out[i + 2 :], True
         return out, False
 
     def _disjoint_ifs(self, out: list) -> Tuple[list, bool]:
